@@ -86,6 +86,34 @@ def R1(inp, N, n, m):
                vars=dict(m=m, n=n, pli=pli, last=p.last, mci=mci, commit=p.commit))
 
 
+@obligation('R1c', props=('C02', 'C01'), quick=[dict()], stubs=_STUBS,
+            bounds='follower log [1, 2, 3] whose entries 2.. are a stale tail of an older term (terms symbolic); a command it forwarded was answered by the new leader with index 2 or 3 and the new term; '
+                   'then the new leader\'s append_entries replaces the tail (1 or 2 entries) or is a heartbeat')
+def R1c(inp):
+    """storing or truncating entries decides nothing about a waiting command: a callback registered for (index, term) of the new
+    leadership, at an index still occupied here by a stale entry, is neither called nor dropped when that entry is replaced; it
+    fires when its index is applied (R8)."""
+    from pvf.obligations.apply import Rec
+    o, tr, now = _mk(inp, 3)
+    told, tnew = inp.int('stale_term', 0, 3), inp.int('new_term', 1, 4)
+    inp.assume(tnew > told)
+    so.set_log(o, [(so.NOOP, 1, 0), (so.NOOP, 2, told), (so.NOOP, 3, told)])
+    put(o, 'raftCurrentTerm', tnew); put(o, 'raftCommitIndex', 1); put(o, 'raftLastApplied', 1)
+    put(o, 'raftElectionDeadline', now + 100)
+    sender = Node('b')
+    put(o, 'raftLeader', sender)
+    waiting = Rec('forwarded')
+    widx = 2 + inp.choice('waiting_at', 2)
+    get(o, 'commandsWaitingCommit')[widx].append((tnew, waiting))
+    m = inp.choice('entries', 3)
+    msg = {'type': 'append_entries', 'term': tnew, 'commit_index': 1, 'prevLogIdx': 1, 'prevLogTerm': 0,
+           'entries': [(so.NOOP, 2 + i, tnew) for i in range(m)]}
+    _, exc = guard(getattr(o, P + 'onMessageReceived'), sender, msg)
+    cl = {'no_exception': exc is None}
+    cl['waiting_callback_untouched_by_append'] = waiting.calls == [] and any(cb is waiting for lst in get(o, 'commandsWaitingCommit').values() for _, cb in lst)
+    return Res(cl, nontrivial=m > 0, obs=lambda: dict(entries=m, waiting_at=widx, calls=show(waiting.calls), log=show(so.log_of(o)), exc=show(exc)))
+
+
 @obligation('RS', props=('C01', 'C04', 'C02'),
             quick=[dict(kind=k, n=n) for k in ('none', 'chunk', 'start', 'process') for n in (2, 3)],
             stubs=_STUBS + ('real in-memory Serializer (no dump file)',),
